@@ -403,6 +403,13 @@ def _judge_applied(prog: Program, S: Summaries, it: Interp, hv: HeapView, arg: i
     rec["orig_untouched"] = _audit_original(it)
     rec["pairs_after"] = _printer_pairs(it, hv, at, "cur", only_new=True)
     rec["result_new"] = _is_new(it, res)
+    held = []
+    ro = getattr(it, "rule_obj", None)
+    if isinstance(ro, Rec):
+        for k, v in ro.fields.items():
+            if isinstance(v, Node) or (hasattr(v, "items") and any(isinstance(x, Node) for x in getattr(v, "items", []) if not isinstance(x, tuple))):
+                held.append(k)
+    rec["rule_holds_nodes"] = held
     return rec
 
 
@@ -684,6 +691,8 @@ def _audit_closure(it: Interp, hv: HeapView, at: int) -> List[dict]:
                 out.append({"what": "constant payload is not a number", "value": repr(v)})
         if ks <= {"VariableExpression"}:
             v, _ = hv.get(cid, "identifier", "cur")
+            if v is _MISSING and not cell.fresh:
+                continue  # payload of a copied pre-existing variable: a name by W
             if v is None or v is _MISSING or isinstance(v, (Num, int, float, Node)):
                 out.append({"what": "variable identifier is not a name", "value": repr(v)})
     return out
